@@ -304,22 +304,26 @@ class DiskFile(VirtualFileContainer):
                 else:
                     preamble = BasicPreamble()
 
-                preamble.read(self.buffer, self.seek_granule(starting_granule.int))
+                # The file is the stream of bytes held by its chain of granules, in chain order
+                stream = []
+                for granule in self.read_granule_chain(starting_granule.int, fat):
+                    granule_start = self.seek_granule(granule)
+                    stream.extend(self.buffer[granule_start:granule_start + DiskConstants.HALF_TRACK_LEN])
 
+                data_start = preamble.read(stream, 0)
+
+                # Only files without a preamble take their length from the FAT and directory
                 data_length = preamble.data_length.int
-                if data_length == 0:
+                if preamble.length == 0:
                     data_length = self.calculate_file_length(starting_granule.int, fat, bytes_in_last_sector.int)
 
-                file_data, post_pointer = self.read_data(
-                    starting_granule.int,
-                    fat,
-                    preamble=preamble,
-                    data_length=data_length,
-                )
+                if data_length < 0 or len(stream) < data_start + data_length:
+                    raise VirtualFileValidationError("Unable to read data - insufficient bytes in granule chain")
+                file_data = stream[data_start:data_start + data_length]
 
                 if preamble.is_ml():
                     postamble = Postamble()
-                    postamble.read(self.buffer, post_pointer)
+                    postamble.read(stream, data_start + data_length)
                     exec_addr = postamble.exec_addr
 
                 coco_file = CoCoFile(
@@ -335,6 +339,25 @@ class DiskFile(VirtualFileContainer):
                 files.append(coco_file)
 
         return files
+
+    @staticmethod
+    def read_granule_chain(granule, fat):
+        """
+        Follows the chain of granules that make up a file through the File Allocation
+        Table, starting at the specified granule.
+
+        :param granule: the granule where the file starts at
+        :param fat: the file allocation table data
+        :return: the list of granules that hold the file, in order
+        """
+        chain = []
+        while True:
+            if granule < 0 or granule >= DiskConstants.TOTAL_GRANULES or granule in chain:
+                raise VirtualFileValidationError("Invalid granule chain at granule [{}]".format(granule))
+            chain.append(granule)
+            if (fat[granule] & 0xC0) == 0xC0:
+                return chain
+            granule = fat[granule]
 
     @staticmethod
     def calculate_file_length(granule, fat, bytes_in_last_sector):
